@@ -78,8 +78,15 @@ class ErrorRender:
 
 	def __build_message(self) -> str:
 		"""Returns: 例外メッセージ"""
-		join_args = ', '.join([f'"{arg}"' if isinstance(arg, str) else str(arg) for arg in self.e.args])
+		join_args = ', '.join([f'"{arg}"' if isinstance(arg, str) else self.__arg_to_str(arg) for arg in self.e.args])
 		return f'({join_args})'
+
+	def __arg_to_str(self, arg: object) -> str:
+		"""Args: arg: 例外の引数 Returns: 文字列表現 Note: 不正な構文木のノードは文字列化(名前解決)自体が失敗する場合があるため、その際はシリアライズ表現で代替"""
+		try:
+			return str(arg)
+		except Exception:
+			return repr(arg)
 
 	class Quotation:
 		"""引用ビルダー"""
